@@ -310,7 +310,7 @@ func runC11_3(c *core.Ctx) {
 		if !ok || fa.Kind != core.AccWrite || isFresh(fa.Base) {
 			continue
 		}
-		c.Check(prim[fa.Fn.Name()], core.SSAName(fa.Fn), "write of Buffer."+n, fa.Pos, "list bookkeeping written by a list primitive",
+		c.Check(prim[ssaName(fa.Fn)], core.SSAName(fa.Fn), "write of Buffer."+n, fa.Pos, "list bookkeeping written by a list primitive",
 			"Buffer."+n+" is written outside pop/pushFront/pushBack/Reset: size/bytes can drift from the linked nodes")
 	}
 	for _, name := range []string{"Buffer.pop", "Buffer.pushFront", "Buffer.pushBack"} {
